@@ -17,7 +17,7 @@ FFS = [Fraction(1, 128), Fraction(1, 4), Fraction(1, 2), Fraction(1, 1)]
 
 
 def gen_case(rng, quick):
-    nmax = 24 if quick else 120
+    nmax = 24 if quick else 48     # chain1 traces grow as n^2: 100 cases at n <= 120 made one 2.4 MB shard (~15 min of coqc)
     n = rng.randint(3, nmax)
     d = rng.randint(2, 5)
     fam = rng.choice(["clustered", "clustered", "clustered", "uniform", "duplicates", "ties01", "lattice1d"])
@@ -186,7 +186,7 @@ def oracle(case, res):
 
 def run(ctx):
     po = C.proof_obligations(ctx.prop)
-    ncases = 300 if ctx.quick else 4000
+    ncases = 300 if ctx.quick else 1500
     cases, ress = [], []
     stats = dict(families={}, modes={}, steps=0, pruned_steps=0, pruned_cases=0, calibrated=0, calibrated_zero=0,
                  per_stage=0, forms={}, branch_full=0, branch_sparse=0)
@@ -275,7 +275,7 @@ def run_extension(ctx, stats):
     """round 3: sessions on one object (Model/VorObj.v), forced calibration outcomes
     (Model/VorCalib.v), rejected parameters (vor_validate), real-valued data (oracle only)."""
     q = ctx.quick
-    nsess, nfloat, nguard = (240, 150, 80) if q else (1800, 2500, 400)
+    nsess, nfloat, nguard = (240, 150, 80) if q else (1200, 2500, 400)
     imp = "From Verif Require Import ListX Greedy FPS Voronoi VorCalib VorObj.\n"
     sess = [VO.gen_session(ctx.rng, q) for _ in range(nsess)]
     sres = [VO.run_session(c) for c in sess]
